@@ -57,6 +57,10 @@ func genAgg(seed uint64, tier string, emphasis int) *plan.Plan {
 	pl.Cfg["min_expiry_ms"] = []int64{0, 100}[r.IntN(2)]
 	if r.IntN(3) == 0 {
 		pl.Cfg["corr_odd"] = int64(1 + r.IntN(40))
+	} else if r.IntN(5) == 0 {
+		// the application lists only some of the fields, or none: records of both nodes are still
+		// paired, only the listed fields are copied
+		pl.Cfg["corr_drop"] = []int64{0xfff, int64(1 + r.IntN(0xfff)), 0x9, 0x3f}[r.IntN(4)]
 	}
 	A, I := time.Duration(activeMs)*time.Millisecond, time.Duration(inactiveMs)*time.Millisecond
 	maxRetries := int(pl.Cfg["max_retries"])
